@@ -25,7 +25,7 @@ use crate::{
     utils::{message::cl03_message::CL03Message, random::random_bits, util::cl03_utils::divm},
 };
 use digest::Digest;
-use rug::{integer::Order, Complete, Integer};
+use rug::{integer::Order, ops::Pow, Complete, Integer};
 use serde::{Deserialize, Serialize};
 
 #[derive(Clone, PartialEq, Eq, Debug, Serialize, Deserialize)]
@@ -594,6 +594,18 @@ impl NISPSignaturePoK {
             && is_residue(&self.Cv.value)
             && is_residue(&self.Cw.value)
             && is_residue(&self.Ce.value))
+        {
+            return false;
+        }
+
+        // shape of the statement: the hidden positions are positions of signed attributes, listed once and in ascending order, with one
+        // response each; every other position has its revealed attribute, an lm-bit non-negative integer as in verify_multiattr
+        let hidden = unrevealed_message_indexes;
+        if hidden.windows(2).any(|w| w[0] >= w[1])
+            || hidden.iter().any(|&i| i >= n_signed_messages)
+            || self.s_5.len() != hidden.len()
+            || messages.len() + hidden.len() != n_signed_messages
+            || messages.iter().any(|m| m.value < 0 || m.value >= Integer::from(2).pow(CS::lm))
         {
             return false;
         }
